@@ -12,9 +12,17 @@ import AiocoapModel.Apps.Rd
     E:<query>  S:<query>               endpoint / resource lookup
 
 `<remote>`: hex of `request.remote.uri`, `!` = anonymous.  `<query>`: `~` (empty) or
-`hexkey=hexvalue` items joined by `&` (`-` = empty string; an item without `=` is a valueless
-option: out-of-model).  `<body>`: Content-Format `n`one / `l`ink-format / `o`ther, then payload
-`e`mpty / `g`arbage / `k<link>;<link>…` with `<link>` = `hexhref,hexkey=hexvalue,…`.
+`hexkey=hexvalue` items joined by `&` (`-` = empty string; an item without `=` is an option
+without value, `?flag`).  `<body>`: Content-Format `n`one / `l`ink-format / `o`ther, then payload
+`e`mpty / `g`arbage (text the directory refuses with 4.00: unparsable, or a link target that can
+not be resolved) / `k<link>;<link>…` with `<link>` = `hexhref,hexkey=hexvalue,…` (an attribute
+without `=` has no value).
+
+Out-of-model (answer `out-of-model`): a `proxy` option, `lt` values Python's `int` reads differently
+from `parseInt`, bases / remotes other than `coap[s|+tcp]://authority` with a well-formed authority
+(a `base` value whose authority has an unpaired bracket IS in the model: refused), `page` / `count`
+with a value, search values ending in `*`, `anchor` attributes, hrefs that are not plain absolute
+paths, bytes outside printable ASCII.
 
 Output: one token per op (`C<path>` 2.01, `H` 2.04, `D` 2.02, `E<code>`, `T`, `G[…]` registration
 payload in order, `L[…]` lookup entries sorted), then ` | K[…] P[…]`: the two indexes, sorted.
@@ -38,8 +46,8 @@ def natP (s : String) : P Nat :=
 
 def guard' (ok : Bool) : P Unit := if ok then .ok () else .error .oom
 
-/-- printable ASCII without `"` and `\` -/
-def charsetOk (s : Str) : Bool := s.all (fun b => 32 ≤ b && b ≤ 126 && b != 34 && b != 92)
+/-- printable ASCII (`"` and `\` included: they travel escaped in link-format) -/
+def charsetOk (s : Str) : Bool := s.all (fun b => 32 ≤ b && b ≤ 126)
 
 def isAlnum (b : Nat) : Bool := (48 ≤ b && b ≤ 57) || (65 ≤ b && b ≤ 90) || (97 ≤ b && b ≤ 122)
 
@@ -48,14 +56,60 @@ def keyOk (s : Str) : Bool := !s.isEmpty && s.all (fun b => isAlnum b || b == 45
 
 def sProxy : Str := [112, 114, 111, 120, 121]
 
-/-- `coap://`, `coaps://`, `coap+tcp://` followed by a non-empty authority `[A-Za-z0-9.:[]-]+`:
-for these `urljoin(base, "/path") = base ++ "/path"` -/
-def baseOk (s : Str) : Bool :=
-  let schemes : List Str := [[99, 111, 97, 112, 58, 47, 47], [99, 111, 97, 112, 115, 58, 47, 47],
+def isHex (b : Nat) : Bool := (48 ≤ b && b ≤ 57) || (65 ≤ b && b ≤ 70) || (97 ≤ b && b ≤ 102)
+
+def isDigit (b : Nat) : Bool := 48 ≤ b && b ≤ 57
+
+/-- split at every `sep` -/
+def splitAt (sep : Nat) : Str → List Str
+  | [] => [[]]
+  | b :: rest =>
+    match splitAt sep rest with
+    | [] => [[b]]
+    | cur :: more => if b == sep then [] :: cur :: more else (b :: cur) :: more
+
+/-- an IPv6 literal of the one shape the model vouches for: 2 to 7 groups of 1-4 hex digits with
+exactly one `::` between two groups (`2001:db8::7`) — always accepted by `ipaddress` -/
+def ip6Ok (s : Str) : Bool :=
+  let parts := splitAt 58 s
+  3 ≤ parts.length && parts.length ≤ 8 &&
+  (parts.filter (·.isEmpty)).length == 1 &&
+  parts.head? != some [] && parts.getLast? != some [] &&
+  parts.all (fun p => p.length ≤ 4 && p.all isHex)
+
+/-- `:port` or nothing -/
+def portOk (s : Str) : Bool :=
+  match s with
+  | [] => true
+  | 58 :: ds => !ds.isEmpty && ds.length ≤ 5 && ds.all isDigit
+  | _ => false
+
+/-- a well-formed authority: `name[:port]` of `[A-Za-z0-9.-]+`, or `[ip6][:port]` -/
+def authorityOk (a : Str) : Bool :=
+  match a with
+  | 91 :: rest =>
+    let lit := rest.takeWhile (· != 93)
+    let after := rest.dropWhile (· != 93)
+    ip6Ok lit && (match after with | 93 :: port => portOk port | _ => false)
+  | _ =>
+    let name := a.takeWhile (· != 58)
+    !name.isEmpty && name.all (fun b => isAlnum b || b == 46 || b == 45) && portOk (a.dropWhile (· != 58))
+
+def schemes : List Str := [[99, 111, 97, 112, 58, 47, 47], [99, 111, 97, 112, 115, 58, 47, 47],
     [99, 111, 97, 112, 43, 116, 99, 112, 58, 47, 47]]
+
+/-- `coap://`, `coaps://`, `coap+tcp://` followed by a well-formed authority and nothing else:
+`urlsplit` accepts these and `urljoin(base, "/path") = base ++ "/path"` -/
+def baseOk (s : Str) : Bool :=
+  schemes.any (fun p => p.isPrefixOf s && authorityOk (s.drop p.length))
+
+/-- … or an authority of `[A-Za-z0-9.:[]-]+` in which one kind of bracket lacks its partner: what
+`urlsplit` refuses ("Invalid IPv6 URL"), whatever else the authority holds -/
+def baseUnpaired (s : Str) : Bool :=
   schemes.any (fun p => p.isPrefixOf s &&
     (let rest := s.drop p.length
-     !rest.isEmpty && rest.all (fun b => isAlnum b || b == 46 || b == 58 || b == 91 || b == 93 || b == 45)))
+     rest.all (fun b => isAlnum b || b == 46 || b == 58 || b == 91 || b == 93 || b == 45) &&
+     rest.contains 91 != rest.contains 93))
 
 def hasDoubleSlash : Str → Bool
   | 47 :: 47 :: _ => true
@@ -72,16 +126,17 @@ def ltOk (v : Str) : Bool :=
    | some n => decide (n.natAbs < 2 ^ 40)
    | none => true)
 
-def parseItem (s : String) : P (Str × Str) :=
+def parseItem (s : String) : P (Str × Val) :=
   match s.splitOn "=" with
   | [k, v] => do
     let k ← hexP k
     let v ← hexP v
     guard' (keyOk k && charsetOk v)
-    pure (k, v)
+    pure (k, some v)
   | [k] => do
-    let _ ← hexP k
-    .error .oom                 -- valueless query option
+    let k ← hexP k
+    guard' (keyOk k)
+    pure (k, none)              -- an option without `=`
   | _ => .error .bad
 
 def parseQuery (s : String) : P Query :=
@@ -90,10 +145,15 @@ def parseQuery (s : String) : P Query :=
 /-- a query of a registration / update: extra guards -/
 def writeQueryOk (q : Query) : Bool :=
   q.all (fun e => e.1 != sProxy &&
-    (e.1 != sLt || ltOk e.2) && (e.1 != sBase || baseOk e.2))
+    (match e.2 with
+     | none => true
+     | some v => (e.1 != sLt || ltOk v) && (e.1 != sBase || baseOk v || baseUnpaired v)))
 
 def lookupQueryOk (q : Query) : Bool :=
-  q.all (fun e => e.1 != sPage && e.1 != sCount && e.2.getLast? != some 42)
+  q.all (fun e =>
+    match e.2 with
+    | none => true
+    | some v => e.1 != sPage && e.1 != sCount && v.getLast? != some 42)
 
 def parseRemote (s : String) : P (Option Str) :=
   if s = "!" then .ok none else do
@@ -101,13 +161,17 @@ def parseRemote (s : String) : P (Option Str) :=
     guard' (baseOk b)
     pure (some b)
 
-def parseAttr (s : String) : P (Str × Str) :=
+def parseAttr (s : String) : P (Str × Val) :=
   match s.splitOn "=" with
   | [k, v] => do
     let k ← hexP k
     let v ← hexP v
     guard' (keyOk k && charsetOk v && k != sAnchor)
-    pure (k, v)
+    pure (k, some v)
+  | [k] => do
+    let k ← hexP k
+    guard' (keyOk k && k != sAnchor)
+    pure (k, none)
   | _ => .error .bad
 
 def parseLink (s : String) : P Link :=
@@ -182,14 +246,17 @@ def parseOps (toks : List String) : P (List Op) :=
 
 def sortStrings (l : List String) : List String := l.mergeSort (fun a b => compare a b != .gt)
 
-def showAttr (a : Str × Str) : String := bytesToHex a.1 ++ "=" ++ bytesToHex a.2
+def showAttr (a : Str × Val) : String :=
+  match a.2 with
+  | some v => bytesToHex a.1 ++ "=" ++ bytesToHex v
+  | none => bytesToHex a.1
 
 def showLink (l : Link) : String := ",".intercalate (bytesToHex l.href :: l.attrs.map showAttr)
 
 /-- `get_host_link` (rd.py:263-270); attributes sorted because `registration_parameters` is a dict -/
 def showHostLink (r : Reg) : String :=
   let pairs := r.params.flatMap (fun e => e.2.map (fun v => (e.1, v)))
-  let attrs := pairs ++ [(sBase, r.base), (sRt, [99, 111, 114, 101, 46, 114, 100, 45, 101, 112])]
+  let attrs := pairs ++ [(sBase, some r.base), (sRt, some [99, 111, 114, 101, 46, 114, 100, 45, 101, 112])]
   ",".intercalate (bytesToHex r.href :: sortStrings (attrs.map showAttr))
 
 def showOptStr : Option Str → String
